@@ -655,3 +655,17 @@ func vfJSON(v interface{}) string {
 
 var _ = htmltemplate.HTMLEscapeString
 var _ = texttemplate.HTMLEscapeString
+
+func bigOne(n int64) *big.Int { return big.NewInt(n) }
+
+func pkixName(cn string) pkix.Name { return pkix.Name{CommonName: cn} }
+
+func vfRand() io.Reader { return rand.Reader }
+
+// vfAt runs f with the virtual clock temporarily displaced by d.
+func vfAt(d time.Duration, f func()) {
+	cur := vclock.Now().Sub(time.Unix(vclock.EpochUnix, 0))
+	vclock.SetOffset(cur + d)
+	f()
+	vclock.SetOffset(cur)
+}
